@@ -4,6 +4,21 @@ import json, os, sys
 ROOT = os.path.dirname(os.path.dirname(os.path.abspath(__file__)))
 
 CHECKS = {
+ "C01": ("exploration",
+         "property-based testing (proptest): enqueue-permutation metamorphic relation + independent reference tick model + remove-rejected metamorphic relation + scheduler differential",
+         "Generated multi-instance states and data-driven rewrite programs (DSL interpreted by fixed fn-pointer rules), candidate sets on both sides of the 1024 threshold (incl. exactly 1023/1024/1025), k enqueue permutations with duplications each: snapshot, receipt, patch and state dump must be bit-equal; receipt, post-state and the set of changed slots must equal an independent reference model written from the spec; dropping rejected candidates must change nothing but the receipt; Radix and Legacy must agree. Exploration: sampled, seeded, shrinking to a replay file.",
+         "Trusts the reference model M (~300 lines, written from docs/spec) and the generator's soundness restrictions (documented in DESIGN §2.2); runs with footprint enforcement on.",
+         "DESIGN.md §4 C01"),
+ "C02": ("exploration",
+         "property-based testing with an owned schedule: exhaustive enumeration of (unit->worker assignment x claim order) via the echo_verif scripted-schedule hook, sampled schedules for large ticks, real-thread differential, execution-policy differential",
+         "Every run of the same tick under every enumerated/sampled worker schedule, under real racing threads (1..=32 workers) and under all five execution policies must be bit-identical to the serial run. Exhaustive for ticks with few work units (bounded by 900/7000 schedules per tick), sampled beyond.",
+         "Relies on the read-verified fact that workers share only the claim counter and an immutable store; real-thread runs observe whichever interleaving the OS picks.",
+         "DESIGN.md §4 C02"),
+ "C03": ("exploration",
+         "exhaustive enumeration of small footprint universes (pairs, triples) + property-based testing of large sets and adversarial sort keys, against a reference greedy/sort oracle; Radix vs Legacy differential",
+         "All ordered pairs (108x2 footprints; two-instance footprints) and all 531 441 triples over the single-instance universe decide accept/reject and exact blocker lists against a reference predicate, under both scheduler kinds and two sound mask encodings; generated key sets up to 5000 entries with differences confined to a single radix digit check the drain order and last-wins payloads against a plain sort.",
+         "Uses the echo_verif SchedProbe hook (thin wrapper over the real queue/reserve code). Reference predicate written from the property text.",
+         "DESIGN.md §4 C03"),
  # id: (category, technique, text, note, design_ref)
  "C18": ("exploration",
          "property-based testing (proptest): permutation metamorphic relation + independent reference fold; exhaustive permutations <=7; enumerated reducer law",
